@@ -325,7 +325,7 @@ NOP_STMTS = [
 ]
 
 
-def _nop(si: int, mask: int, as_dict: bool) -> bool:
+def _nop(si: int, mask: int, as_dict: bool, prior: int = 0) -> bool:
     from snowflake.connector.cursor import SnowflakeCursor
 
     stmt, params, matching = NOP_STMTS[si]
@@ -333,6 +333,10 @@ def _nop(si: int, mask: int, as_dict: bool) -> bool:
     eng = std_engine()
     fs = instance(eng, nop_regexes=pats or None)
     conn = fs.connect(database="db1", schema="s1")
+    # statements executed earlier in the session (they rewrite to / share fakesnow's internal no-op statement)
+    PRIOR = [[], ["comment on table t1 is 'first'", "alter table t1 set comment = 'second'"], ["set v9 = 1", "alter table t1 cluster by (a)"]]
+    for q in PRIOR[prior]:
+        conn.cursor().execute(q)
     base, w0, snap0 = len(eng.log), len(eng.writes), eng.user_snapshot()
     cur = conn.cursor(DictCursor if as_dict else SnowflakeCursor)
     should_nop = any((mask & (1 << j)) for j in matching)
@@ -355,6 +359,8 @@ def _nop(si: int, mask: int, as_dict: bool) -> bool:
     # no match: exactly as without the option
     eng2 = std_engine()
     conn2 = instance(eng2).connect(database="db1", schema="s1")
+    for q in PRIOR[prior]:
+        conn2.cursor().execute(q)
     base2 = len(eng2.log)
     cur2 = conn2.cursor(DictCursor if as_dict else SnowflakeCursor)
     try:
@@ -370,14 +376,14 @@ def _nop(si: int, mask: int, as_dict: bool) -> bool:
     encodes=["fakesnow.cursor.FakeSnowflakeCursor.execute (nop_regexes short-circuit)", "fakesnow.instance.FakeSnow.connect (option plumbing)"],
     bounds="every subset of 5 patterns (anchored, unanchored, with \\s, with $, reaching into a substituted parameter) x 10 statements "
     "(matching in a different letter case, matching only after parameter substitution, containing pattern text away from the start, "
-    "not matching) x tuple/dict cursor",
+    "not matching) x tuple/dict cursor x three session prefixes (fresh; COMMENT ON TABLE + ALTER SET COMMENT earlier; SET + CLUSTER BY earlier)",
     timeout=(300, 600),
     stubs=["K1/K2 vf.duckstub.Engine (statements unknown to the engine such as CALL raise a parser/catalog error there)"],
     shards=(10, 10),
 )
-def nop_regexes(si: int, mask: int, as_dict: bool) -> bool:
+def nop_regexes(si: int, mask: int, as_dict: bool, prior: int) -> bool:
     """
-    pre: 0 <= si < 10 and 0 <= mask < 32 and (SHARD < 0 or si == SHARD)
+    pre: 0 <= si < 10 and 0 <= mask < 32 and 0 <= prior <= 2 and (SHARD < 0 or si == SHARD)
     post: _
     """
-    return done(fast.native(_nop, fast.pick(si, 10), fast.pick(mask, 32), bool(fast.pick(as_dict, 2))))
+    return done(fast.native(_nop, fast.pick(si, 10), fast.pick(mask, 32), bool(fast.pick(as_dict, 2)), fast.pick(prior, 3)))
